@@ -19,4 +19,33 @@ var Properties = map[string]*Property{
 		Stubs:   []string{"elfOpen hook returns a harness-built *elf.File (the repo's own test hook); (*elf.File).Close is a no-op"},
 		Outside: []string{"kernel images and the kernel heuristics' empirical correctness", "more than the stated number of PT_LOAD segments", "Mach-O and PE files", "the external addr2line/llvm-symbolizer/nm tools"},
 	},
+	"C15": {
+		ID: "C15",
+		Harnesses: []HarnessSpec{
+			{Pkg: "internal/measurement", Fn: "VerifC15ScaleBytes", Solver: "z3", Quick: map[string]int{"c15.nfrom": 4, "c15.nto": 4}, Thorough: map[string]int{"c15.nfrom": 14, "c15.nto": 14}, QuickTimeoutS: 240, ThoroughTimeoutS: 900,
+				What: "measurement.Scale on the bytes family for every int64 (incl. MinInt64), nfrom source spellings x (nto explicit targets | auto | minimum): exact ratio, identity, negation, unit in family, auto unit keeps 1 <= |r| < 1024, magnitude preserved"},
+			{Pkg: "internal/measurement", Fn: "VerifC15ScaleTime", Solver: "z3", Quick: map[string]int{"c15.timebits": 40}, Thorough: map[string]int{"c15.timebits": 62}, QuickTimeoutS: 120, ThoroughTimeoutS: 600,
+				What: "measurement.Scale on the time family: explicit targets equal the reference formula value*F(from)/F(to) (differential), auto unit stays in the family and keeps the magnitude >= 1"},
+			{Pkg: "internal/measurement", Fn: "VerifC15Unknown", Solver: "z3", QuickTimeoutS: 120, ThoroughTimeoutS: 300,
+				What: "unknown source units never convert and never change the value for every int64; a cross-family request falls back to the family default"},
+		},
+		Assumptions: []string{
+			"float64 arithmetic is IEEE-754 binary64 with round-to-nearest-even (host FPU = solver FP theory)",
+			"exact term rewrites used by the engine (listed in DESIGN.md 2.9): x*1=x/1=x, sign symmetry of RNE (float(-x)=-float(x) for x != MinInt, (-a)*c=-(a*c), round(-a)=-round(a)), scaling an int-derived double by 2^k is exact for |k|<=900, comparisons of monotone chains against constants are replaced by the equivalent threshold comparison on the chain's leaf (threshold found by bisection on the host FPU)",
+		},
+		Outside: []string{"digits produced by %.2f (ScaledLabel/Percentage text)", "monotonicity of labels and error bounds of time/GCU conversions", "Percentage with a symbolic divisor", "GCU family beyond unknown-unit behaviour", "time family beyond |v| < 2^timebits"},
+	},
+	"C08": {
+		ID: "C08",
+		Harnesses: []HarnessSpec{
+			{Pkg: "internal/graph", Fn: "VerifC08SortTags", Solver: "z3", Quick: map[string]int{"c08.k": 2}, Thorough: map[string]int{"c08.k": 3}, QuickTimeoutS: 120, ThoroughTimeoutS: 900,
+				What: "SortTags (tags.Less) on k tags with symbolic flat/cum and distinct names: output order identical for every input permutation (strict total order)"},
+			{Pkg: "internal/graph", Fn: "VerifC08EdgeSort", Solver: "z3", Quick: map[string]int{"c08.k": 2}, Thorough: map[string]int{"c08.k": 3}, QuickTimeoutS: 120, ThoroughTimeoutS: 900,
+				What: "EdgeMap.Sort (edgeList.Less) on k edges with symbolic weights and distinct endpoints: output independent of map insertion/iteration order"},
+			{Pkg: "internal/graph", Fn: "VerifC08NodeSort", Solver: "z3", Quick: map[string]int{"c08.k": 2}, Thorough: map[string]int{"c08.k": 3}, QuickTimeoutS: 120, ThoroughTimeoutS: 900,
+				What: "Nodes.Sort for the six non-entropy orders on k nodes with symbolic flat/cum and distinct Info: output identical for every input permutation"},
+		},
+		Assumptions: []string{"sort.Sort is interpreted from the standard library source (pdqsort/insertion sort), so the verdict covers the real algorithm on k elements"},
+		Outside: []string{"more than k elements", "EntropyOrder (math.Log2 is uninterpreted)", "serialization order of the string table (covered under C01)", "goroutine completion order (C16)"},
+	},
 }
